@@ -433,6 +433,14 @@ def check_property(pid, tier, seed):
                 discharged.append(t)
         bad = [t for t in obligations if t not in discharged]
         forb = grep_forbidden(mods)
+        if tier == "thorough":
+            # independent re-check of the compiled proof modules by the toolchain's leanchecker (replays every declaration
+            # of the .olean files through the kernel)
+            rc, so, se = sh(["lake", "env", "leanchecker"] + mods, cwd=LEAN, timeout=3000)
+            if rc != 0 and not RESOURCE_RX.search(so + se):
+                forb = forb + ["leanchecker: " + (so + se)[-300:].replace("\n", " | ")]
+            else:
+                notes.append("leanchecker re-checked %s" % " ".join(mods))
         if bad or forb:
             hdr = {"property": pid, "broken": "axiom audit", "theorems": ",".join(bad), "forbidden": " | ".join(forb[:10]), "out": aout[-800:].replace("\n", " | ")}
             path = write_replay(pid, "audit", hdr, [])
